@@ -34,6 +34,9 @@ HasBSKey(c) == IF c.k = "leaf" THEN \E i \in 1..Len(c.key) : c.key[i] = BS
                ELSE \E j \in 1..Len(c.sub) : HasBSKey(c.sub[j])
 
 WhyTree(ev, sw, jw) ==
+    \* a tree with an operand that does not fit its operator must be refused (by Check or by the parser) ...
+    IF ~WellFormed(ev.ast) THEN (IF ev.ok THEN {"accepted-invalid"} ELSE {}) ELSE
+    \* ... every other tree yields a checked query
     (IF ev.ok THEN {} ELSE {IF ev.e = "rt" THEN "check" ELSE "parse"})
     \cup (IF ev.ok /\ ~ev.chk THEN {"unchecked"} ELSE {})
     \cup (IF ev.ok /\ ev.name # ev.pfx THEN {"name"} ELSE {})
